@@ -13,7 +13,7 @@
 (***************************************************************************)
 EXTENDS Fidelity, JsonPrinter
 
-CONSTANTS DevReadFaultAsEof, DevStderrToFd1, DevValidateLate, DevIndexCountsSkipped, DevLowerCaseExponentOnly
+CONSTANTS DevReadFaultAsEof, DevStderrToFd1, DevValidateLate, DevIndexCountsSkipped, DevBreakEndsFileOnly, DevLowerCaseExponentOnly
 VARIABLES cfg, phase, src, pos, lex, seen, lastAt, idx, fidx, buf, out, errOut, errErr, result, opened, pulled, dispatched, faultHit, l
 M == INSTANCE Run WITH DoubleOf <- TraceDoubleOf
 mvars == <<cfg, phase, src, pos, lex, seen, lastAt, idx, fidx, buf, out, errOut, errErr, result, opened, pulled, dispatched, faultHit>>
@@ -21,7 +21,8 @@ mvars == <<cfg, phase, src, pos, lex, seen, lastAt, idx, fidx, buf, out, errOut,
 \* records marked inexact (large inputs, pipelines the machine abstracts) do not feed the machine: it runs on an empty stdin
 CfgOf(r) == [valid |-> r.valid, policy |-> r.policy, mode |-> r.mode, onlyObj |-> r.onlyObj,
              files |-> IF r.exact THEN r.files ELSE <<>>, stdin |-> IF r.exact THEN r.stdin ELSE <<>>,
-             rfault |-> r.rfault, wfault |-> r.wfault, srcNo |-> 0]
+             rfault |-> r.rfault, wfault |-> r.wfault, srcNo |-> 0,
+             skip |-> IF "skip" \in DOMAIN r THEN r.skip ELSE 0, take |-> IF "take" \in DOMAIN r THEN r.take ELSE -1]
 InitPrimed(c) ==
   /\ cfg' = c /\ phase' = "validate" /\ src' = 0 /\ pos' = 0 /\ lex' = M!LexInit /\ seen' = 0 /\ lastAt' = M!Start0 /\ idx' = 0 /\ fidx' = 0
   /\ buf' = <<>> /\ out' = <<>> /\ errOut' = 0 /\ errErr' = 0 /\ result' = "running" /\ opened' = <<>> /\ pulled' = 0 /\ dispatched' = 0 /\ faultHit' = FALSE
@@ -37,7 +38,8 @@ Streaming(r) == r.mode # "merge"
 CheckFault(r) ==
   IF r.res \in {"panic", "hang", "abort"} THEN Flag("MISMATCH", r.case, <<"jawk did not return an error but", r.res>>)
   ELSE IF r.bres # "ok" THEN Flag("GEN", r.case, "the fault-free run failed")
-  ELSE LET hit == IF r.rfault.src # 0 THEN TRUE ELSE r.wfault < Len(r.base) IN
+  \* a read that fails is met unless --take ended the reading before its offset: the machine (Run!Pull, Break) says which
+  ELSE LET hit == IF r.rfault.src # 0 THEN (IF r.exact /\ cfg.take # -1 THEN faultHit ELSE TRUE) ELSE r.wfault < Len(r.base) IN
        IF hit /\ r.res # "err" THEN Flag("MISMATCH", r.case, <<"a failing read/write did not end the run with an error: result", r.res>>)
        ELSE IF ~hit /\ r.res # "ok" THEN Flag("MISMATCH", r.case, "the run failed although no fault was injected before its end")
        ELSE IF Streaming(r) /\ r.policy # "stdout" /\ ~IsPrefixB(r.out, r.base) THEN Flag("MISMATCH", r.case, "stdout is not a prefix of the fault-free output")
@@ -107,16 +109,25 @@ CheckFiles(r) == IF r.res # "ok" THEN Flag("MISMATCH", r.case, "run did not succ
                  ELSE IF r.out # Cat(r.parts, 1) THEN Flag("MISMATCH", r.case, "the output for f1..fn is not the concatenation of the outputs for each file alone")
                  ELSE IF r.exact /\ r.mode = "plain" /\ r.policy \in {"ignore", "stderr"} /\ r.out # out THEN Flag("DRIFT", r.case, "machine stdout differs")
                  ELSE TRUE
-\* a directory argument: the rows are those of its files, each file once, in an order the specification does not fix (read_dir)
+\* directory operands: the files below a directory are read depth first, the entries of one directory in the order the file system lists them.
+\* The record has the operand tree (Run!Lin gives the orders the environment may choose), the rows each file gives alone, and what the run
+\* printed; TLC looks for an order that explains it - every file once, the files of one directory together, operands in the order given.
+\* A second run of the same operands with --take T (a directory of its own, so possibly another order) must print the first T rows of some order.
+RECURSIVE CatRows(_, _, _)
+CatRows(rowsOf, f, i) == IF i > Len(f) THEN <<>> ELSE rowsOf[f[i]] \o CatRows(rowsOf, f, i + 1)
 CheckDir(r) ==
   LET got == RowLines(r.out)
-      want == RowLines(Cat(r.parts, 1)) IN
-  IF r.res # "ok" THEN Flag("MISMATCH", r.case, "run did not succeed")
-  ELSE IF Len(got) # Len(want) THEN Flag("MISMATCH", r.case, <<"a directory argument gives", Len(got), "rows; its files hold", Len(want)>>)
-  ELSE IF \E k \in 1..Len(got) : Cardinality({i \in 1..Len(got) : got[i] = got[k]}) # Cardinality({i \in 1..Len(want) : want[i] = got[k]})
-       THEN Flag("MISMATCH", r.case, "the rows of a directory argument are not the rows of its files")
+      rowsOf == [i \in 1..Len(r.parts) |-> RowLines(r.parts[i])] \o <<>>
+      orders == M!Lin(r.tree)
+      want == RowLines(Cat(r.parts, 1))
+      tgot == RowLines(r.tout) IN
+  IF r.res # "ok" \/ r.tres # "ok" THEN Flag("MISMATCH", r.case, "run did not succeed")
+  ELSE IF ~\E f \in orders : got = CatRows(rowsOf, f, 1)
+       THEN Flag("MISMATCH", r.case, <<"the rows of directory operands are not the rows of their files, file by file, in any order of the directories' entries: rows", Len(got)>>)
+  ELSE IF ~\E f \in orders : LET all == CatRows(rowsOf, f, 1) IN tgot = SubSeq(all, 1, IF r.dtake < Len(all) THEN r.dtake ELSE Len(all))
+       THEN Flag("MISMATCH", r.case, <<"with --take the rows of directory operands are not the first rows of any order of their files: rows", Len(tgot), "take", r.dtake>>)
   \* &index numbers the values of the whole run, whatever file of whatever directory they came from: 0 .. n-1, each once, in the order of the rows
-  ELSE IF r.idxres # "ok" \/ Len(r.idx) # Len(want) \/ \E k \in 1..Len(r.idx) : r.idx[k] # k - 1
+  ELSE IF r.idxres # "ok" \/ Len(r.idx) # Len(got) \/ \E k \in 1..Len(r.idx) : r.idx[k] # k - 1
        THEN Flag("MISMATCH", r.case, "&index does not count the values of a directory argument 0, 1, 2, ...")
   ELSE TRUE
 \* ---- C18
